@@ -61,6 +61,15 @@ impl Filler for MarkerFiller {
                 )
                 .with_idents(vec![(&a, Role::Decl), ("x", Role::Read), (&b, Role::Decl), (&a, Role::Read)])
             }
+            5 => {
+                // Sugar (templates through the real runner only): a tuple declaration with
+                // initialisers expands to declarations and assignments in source order.
+                let (a, b) = (format!("p{k}"), format!("q{k}"));
+                Atom::new(
+                    &format!("var ({a}, {b}) = (x, {k})"),
+                    vec![Ev::Decl(format!("var {a}")), Ev::Decl(format!("var {b}")), Ev::Assign(format!("{a} = x")), Ev::Assign(format!("{b} = {k}"))],
+                )
+            }
             _ => {
                 if self.is_function {
                     Atom::ret("x").with_idents(vec![("x", Role::Read)])
